@@ -37,6 +37,9 @@ def run(ctx):
     record_phase(ctx, "exhaustive", exe, ["exhaustive", 4 if ctx.quick else 5, 4 if ctx.quick else 5], props)
     # large adversarial inputs are judged by the contract only (the step-by-step model is quadratic on them)
     record_phase(ctx, "large", exe, ["large", 300 if ctx.quick else 2000, ctx.seed], props, levels=(2,))
+    # 40 000 - 200 000 records in the input shapes on which partitioning degenerates, every selector, array and vector
+    from . import p_big
+    p_big.big_phase(ctx, ["sort:40000"] if ctx.quick else ["sort:40000", "sort:200000"])
     ctx.cov["exhaustive"] = not ctx.violations
     ctx.assumptions += [
         "TLC and the TLA+ text of SortContract / SearchContract / FindContract / EvInRange are trusted",
